@@ -395,6 +395,8 @@ pub trait EnvLike {
     fn env_orders(&self, a: usize) -> Vec<OOrder>;
     fn env_trades(&self, a: usize) -> Vec<OTrade>;
     fn n_orders(&self, a: usize) -> usize;
+    /// number of queued instructions (verification hook, feature `verif`)
+    fn n_queued(&self) -> usize;
 }
 
 impl<const L: usize> EnvLike for Env<L> {
@@ -453,6 +455,9 @@ impl<const L: usize> EnvLike for Env<L> {
     fn n_orders(&self, _a: usize) -> usize {
         self.get_orders().len()
     }
+    fn n_queued(&self) -> usize {
+        self.verif_queued().len()
+    }
 }
 
 impl<const A: usize, const L: usize> EnvLike for MarketEnv<A, L> {
@@ -510,6 +515,9 @@ impl<const A: usize, const L: usize> EnvLike for MarketEnv<A, L> {
     }
     fn n_orders(&self, a: usize) -> usize {
         self.get_orders(a).len()
+    }
+    fn n_queued(&self) -> usize {
+        self.verif_queued().len()
     }
 }
 
